@@ -61,6 +61,11 @@ def setup_state(eng: Engine, contract: Contract, fi):
             v = mk_fresh(ty, n)
         st.env[n] = v
         args[n] = v
+    sp = getattr(contract, "sentinel_param", None)
+    if sp:
+        flag = mk_fresh(contract.params[sp[1]], sp[1])
+        args[sp[1]] = flag
+        eng.sentinel_flags = {str(args[sp[0]].term): flag.term}
     if a.vararg or a.kwarg:
         raise Unsupported("*args/**kwargs in verified function")
     if self_ref is not None:
